@@ -301,10 +301,109 @@ func runC12(c c12Case, r *rep.Report) (key, msg string, stats map[string]int64) 
 	return
 }
 
+// runC12CloseVsDrain places the drain of the last buffered batch between Close(false)'s test of
+// the write buffer and its subscription to the drain event (hook socket.Close.beforeDrainWait).
+func runC12CloseVsDrain(transport string, r *rep.Report) (key, msg string, held bool) {
+	rig.Bubble(r.T(), func() {
+		so := &config.ServerOptions{}
+		so.SetTransports(types.NewSet("polling", "websocket", "webtransport"))
+		so.SetPingInterval(25 * time.Second)
+		so.SetPingTimeout(20 * time.Second)
+		w := rig.NewWorld(rig.Options{Server: so})
+		defer w.Finish()
+		cl, err := w.Connect(rig.ClientCfg{Rev: 4, Transport: transport})
+		rig.Wait()
+		sock := w.Socket(0)
+		if err != nil || sock == nil {
+			key, msg = "c12-handshake-failed", fmt.Sprint(err)
+			return
+		}
+		sid := sock.Id()
+		point := map[string]string{"websocket": "ws.send.start", "webtransport": "wt.send.start"}[transport]
+		if transport != "polling" {
+			cl.StartReader()
+			// the writer goroutine of m0 is held: the transport stays unwritable, m1 stays buffered
+			w.Gate.Arm(point, 1)
+		}
+		sock.Send(types.NewStringBufferString("m0"), nil, nil)
+		sock.Send(types.NewStringBufferString("m1"), nil, nil)
+		rig.Wait()
+		w.Gate.Arm("socket.Close.beforeDrainWait", 1)
+		go sock.Close(false)
+		rig.Wait()
+		var closer *rig.Parked
+		for _, p := range w.Gate.Parked() {
+			if p.Point == "socket.Close.beforeDrainWait" {
+				closer = p
+			}
+		}
+		if closer == nil {
+			r.Inconclusive("Close(false) did not reach the hook socket.Close.beforeDrainWait with packets buffered")
+			w.Gate.ReleaseAll()
+			return
+		}
+		held = true
+		// now everything buffered goes out and drains
+		if transport == "polling" {
+			cl.StartReader()
+		} else {
+			for _, p := range w.Gate.Parked() {
+				if p.Point == point {
+					p.Release()
+				}
+			}
+		}
+		time.Sleep(10 * time.Millisecond)
+		rig.Wait()
+		if n := len(cl.Messages()); n != 2 {
+			r.Inconclusive(fmt.Sprintf("close-vs-drain: expected both messages on the wire before Close continues, client has %d", n))
+		}
+		t0 := w.Tap.Now()
+		closer.Release()
+		time.Sleep(2 * time.Second)
+		rig.Wait()
+		ev := w.Tap.Of(sid, "close")
+		if len(ev) == 0 {
+			key, msg = "c12-graceful-close-stalled", fmt.Sprintf("%s: Close(false) saw 2 buffered packets, they drained before it subscribed to 'drain': 2 s later the session is still %s (it will only end with the heartbeat)", transport, sock.ReadyState())
+			return
+		}
+		if len(ev) != 1 || ev[0].Str != "forced close" || ev[0].At-t0 > time.Second {
+			key, msg = "c12-close-reason", fmt.Sprintf("%s: close events %v", transport, ev)
+			return
+		}
+		var got []string
+		for _, m := range cl.Messages() {
+			got = append(got, string(m.P.Data))
+		}
+		if strings.Join(got, ",") != "m0,m1" {
+			key, msg = "c12-packets-lost-on-graceful-close:"+transport, fmt.Sprintf("client received %v", got)
+		}
+		cl.Stop()
+	})
+	return
+}
+
 func TestC12(t *testing.T) {
 	r := rep.New(t, "C12")
 	defer r.Flush()
 	r.Rule("PRNG cases: graceful Close(false) with 0-4 accepted-but-unsent packets on polling (poll pending or absent), WebSocket and WebTransport, optionally with the transport's writer goroutine held at *.send.start while Close runs; silent client (bounded close time on virtual time); a pending poll while the session closes by each cause (incl. the client's own close packet); Server.Close and HttpServer.Close with 1-20 mixed sessions, buffered packets, sessions already waiting in a graceful close, and an upgrade in progress; oracle: all accepted messages before the close packet/teardown, reason 'forced close', close within max(30 s, PI+PT)+PT, pending poll answered 200 with close/noop, exactly one close event per session and an empty table after shutdown; distinct = case signature")
+	if r.Lane == 1%r.Lanes {
+		quicClose(r, 12, r.N(8, 320), true)
+	}
+	if r.Lane == 2%r.Lanes {
+		for k := 0; k < r.N(8, 400); k++ {
+			for _, tr := range []string{"polling", "websocket", "webtransport"} {
+				key, msg, held := runC12CloseVsDrain(tr, r)
+				r.Case("close-vs-drain/"+tr, true)
+				if held {
+					r.Obs("gate:close_held_between_buffer_test_and_drain_subscription", 1)
+				}
+				if key != "" {
+					r.Violation(key, msg, map[string]string{"lane": "close-vs-drain", "transport": tr})
+				}
+			}
+		}
+	}
 	n := r.N(3000, 250000)
 	for i := 0; i < n; i++ {
 		if !r.Only(i) {
